@@ -28,6 +28,8 @@ constructor cache and its stored authority is the text `make_netloc` writes for 
 with `h` in brackets iff it contains ':' (so `h = "::1"` is the IPv6 case, `pw = some []` the
 empty-password case, `port = some 0` the zero-port case).  `rawUser`, `rawPassword`, `rawHost`,
 `explicitPort` are the raw accessors; `q e Gen.QUOTER` is the userinfo quoter.
+Continued further in C11HeadlineMore4.lean (headline theorems for the proof modules added after the last refresh:
+C11More.lean; the GAPS block below cites them).
 -/
 namespace Yarl
 open NetlocLemmas HeadB
@@ -275,8 +277,37 @@ GAPS:
     lower-casing) — only the accessors are (C11_headline_arbitrary_authority_text_normalised).  What remains: item 9.
  3. with_user: the argument is assumed a Python string with a non-empty quoted form; with_user("") is
     shown to DROP the user (C11_headline_with_user_fails_for_empty) — the property text does not say so.
+    CLOSED by C11_quoter_empty_iff, C11_with_user_empty, C11_with_user_empty_invariant, C11_with_user_empty_instance,
+    C11_authority_modifiers_need_authority, C11_dyn_authority_modifiers_need_authority, C11_relative_instances
+    (C11More.lean), see C11_headline_with_user_empty, C11_headline_with_user_empty_instance,
+    C11_headline_authority_modifiers_need_authority, C11_headline_dyn_authority_modifiers_need_authority
+    (C11HeadlineMore4.lean).  Proved: for a Python string `x` the quoted form is "" IFF every character of `x` is a lone
+    surrogate (in particular `x = ""`); on a `Written` URL `with_user(x)` with quoted form "" DROPS the user, KEEPS the
+    password, host (brackets), port and the other four parts; the stored authority is `make_netloc(None, pw, host,
+    port)`, the result is `Written` and satisfies sentence 1 again (`C11_AuthorityModifiersOK`); it differs from
+    `with_user(None)` iff there is a password.  The same conjunct is part of `C11_AuthorityModifiersOK` for URLs with a
+    consistent cache / with `NetlocCanon` / with given components (item 8), and `NetlocCanon` is kept.  On a URL WITHOUT
+    authority with_user / with_password / with_host / with_port / origin() raise ValueError unconditionally (with_port:
+    TypeError first for a non-int argument).  The property text still does not SAY that "" drops the user (an
+    observation about the text, not a defect).  MODEL-LEVEL only: the statement for arguments of any Python type
+    (`dynWith…` of YarlModel/Dyn.lean, a hand transcription; see item 10).
  4. with_host: "reads back as the canonicalised argument" is relative to `encodeHost` (C16 says what that
     is); the case "IDNA oracle returns the empty string" (`eh = []`) is excluded, not analysed.
+    CLOSED by C11_hostSet_of_enc, C11_with_host_name, C11_with_host_ipv4, C11_with_host_ipv6, C11_with_host_ipv6_zone,
+    C11_with_host_ipv4_zone, C11_with_host_rejects_char, C11_with_host_answer_nonempty, C11_with_host_empty_answer,
+    C11_with_host_instances, C11_with_host_empty_answer_instance (C11More.lean), see
+    C11_headline_with_host_argument_kinds, C11_headline_with_host_stored_text, C11_headline_with_host_rejects_char,
+    C11_headline_with_host_answer_nonempty, C11_headline_with_host_empty_answer (C11HeadlineMore4.lean).  Proved, on a
+    `Written` URL, in terms of the argument TEXT: an ASCII non-IP name is stored lower-cased, or rejected (ValueError)
+    iff the reg-name screen `notRegName (lower hs)` fires; an IPv4 literal is kept; an IPv6 literal (written WITHOUT
+    brackets) is stored `[compressed]` and `raw_host` reads `compressed`; with a zone id the zone is copied verbatim, or
+    the call is rejected iff the zone fails the screen; every ASCII non-IP argument with a character outside the
+    reg-name alphabet (each of `: / ? # [ ] @` and the space among them) is rejected — so "a:b" and a BRACKETED "[::1]"
+    are rejected.  The guard `eh ≠ ""` holds for every ASCII argument, and for a non-ASCII one under the ASSUMPTION
+    `IdnaSaneAt`.  The excluded case is analysed as HYPOTHETICAL (an `idna` answer ""; not observed — the real codecs
+    raise): `with_host` then succeeds with an EMPTY host, `raw_host` reads "" — or `None` with an EMPTY authority when
+    there is no user, password or port.  STILL relative to `encodeHost` for NON-ASCII arguments (the IDNA answer is an
+    oracle value).
  5. PARTLY CLOSED by C11_cached_with_scheme / C11_ctor_with_scheme (C11Ctor.lean), see
     C11_headline_with_scheme_accessors, C11_headline_ctor_with_scheme_accessors (C11HeadlineMore.lean).
     Proved: with_scheme leaves raw_user, raw_password, raw_host, explicit_port, host_subcomponent, user, password
@@ -286,11 +317,31 @@ GAPS:
  6. Query operations: only the frame (other four parts unchanged) is here; "reads back as the
     canonicalised argument" is C12.  with_fragment/with_path: that the new component is the QUOTER
     output is stated; that it "reads back" decoded is C06.
+    CLOSED by C11_with_query_reads_back, C11_extend_query_reads_back, C11_update_query_reads_back,
+    C11_without_query_params_reads_back, C11_with_fragment_reads_back, C11_with_path_reads_back (C11More.lean — it
+    imports C12Headline.lean and C06Headline.lean), see C11_headline_with_query_reads_back,
+    C11_headline_extend_query_reads_back, C11_headline_update_and_without_read_back,
+    C11_headline_with_fragment_and_path_read_back (C11HeadlineMore4.lean).  Proved: frame AND read-back in one
+    statement — the result's pairs are the argument's pairs (with_query), old pairs ++ argument's (extend_query),
+    `mdUpdate` of the old pairs (update_query) resp. the old pairs without the named keys, AND `C11_QueryFrame` (stored
+    path and fragment, scheme and stored authority text kept, the 12 authority accessors as on the cache-less twin of
+    `u`); with_fragment reads back DECODED as the argument, with_path (auto-encoding) as the argument made absolute.
+    Hypotheses are those of C12 / C06: `GoodPairs` / `GoodText` / `NoSurrogate` of the argument (lone surrogates are
+    dropped by the quoter), `GoodPairs (queryPairs u)` for update_query / without_query_params, for with_path on a URL
+    with authority no "." / ".." segment; "replaces all pairs" of update_query is only as good as `mdUpdate`
+    (F-C12-multidict-tail, C12Headline.lean GAPS 5).
  7. with_path/with_name/with_suffix//, joinpath, parent: "keep authority" is equality of the stored netloc
     text; no statement for the `encoded=True` variants beyond with_path and makeChild (with_name /
     with_suffix have no encoded flag in the model).  (Restated, unchanged in content, for every URL of `ReachE` and
     both `encoded` modes of with_path / joinpath in C11_reachE_frame, C11ReachE.lean; see C11_headline_reachE_frame,
     C11HeadlineMore3.lean.)
+    CLOSED by C11_path_modifiers_keep_authority (C11More.lean), see C11_headline_path_modifiers_keep_authority,
+    C11_headline_frames_def (C11HeadlineMore4.lean).  Proved, with NO hypothesis: with_path (both `encoded`), with_name,
+    with_suffix, `/` and joinpath (both `encoded`), parent satisfy `C11_PathFrame` — scheme and stored authority text
+    equal, the result is `u` itself or has no cache, the 12 authority-derived accessors read as on the cache-less twin
+    of `u` and hence as on `u` WHEN `u`'s cache agrees with its text, query / fragment cleared unless kept.  The
+    remark "with_name / with_suffix have no encoded flag in the model" is moot: the library has none either (signature
+    quoted in C11More.lean from yarl/_url.py; read, not proved).  The cache-agreement condition is item 10 (c).
  8. (new) Side conditions of the theorems that close 1.  `AuthInput` / `BuildNetOK` cover ASCII hosts of the
     supported kinds only (name / IPv4 text of visible ASCII without `/ ? # @ [ ] :`, IPv6 literal with optional
     zone id, not a bracketed non-IPv6 host).  For an IDN host `NetlocCanon` of the constructor result is
@@ -306,6 +357,24 @@ GAPS:
     bracketed IPv4, empty host: the RELATIVE frame C11_headline_reachE_authority_frame (C11HeadlineMore3.lean) needs
     neither `NetlocCanon` nor `Written`, only — for a constructor result — `GoodAuthority` of the input, that
     `split_netloc` accepts the stored authority, and "not (E1)"; it does not include origin().)
+    PARTLY CLOSED by C11_modifiers_of_components, C11_modifiers_of_written, C11_modifiers_of_cached_written,
+    C11_modifiers_of_invariant, C11_ctor_modifiers_of_cached_host, C11_bracket_modifiers, C11_bracket_ctor_modifiers,
+    C11_bracket_instances, C11_idn_ctor_modifiers, C11_cached_arbitrary_authority, C11_empty_host_ctor_in_scope,
+    C11_empty_host_instances (C11More.lean), see C11_headline_modifiers_of_components,
+    C11_headline_ctor_modifiers_of_cached_host, C11_headline_bracket_ctor_modifiers, C11_headline_bracket_instances,
+    C11_headline_idn_ctor_modifiers, C11_headline_empty_host_ctor_in_scope,
+    C11_headline_cached_arbitrary_authority_with_user_none, C11_headline_empty_host_instances (C11HeadlineMore4.lean).
+    Proved: (a) THE GENERAL THEOREM — if `net e u` (the cache when filled, else the lazy parse) is `(user, pw, h, port)`
+    with `UserOK user`, `HostOK h` (non-empty, no '@' '[' ']'), port ≤ 65535 and a non-empty authority, sentence 1 holds
+    for all five authority modifiers whatever the stored TEXT is — no `Written`, no `GoodAuthority`, no `AuthInput`;
+    (b) for `u = URL(s)` from the cached raw host alone (`HostOK rh`); (c) IPvFuture / bracketed non-IPv6 hosts from the
+    input (`BracketTextIn T`, host part written in brackets, lower-cased text passes the bracket check); (d) IDN hosts
+    of ANY URL shape under `IdnaSaneAt`; (e) the empty host ("foo://user@:80/") through the relative frames with the
+    exception (E2).  DEVIATION kept on record (computed): `URL("foo://user@/").with_user(None)` is `URL("foo:/")` —
+    `raw_host` "" becomes `None`.  NEGATIVE about the stored TEXT (computed; the clause is about RAW components and
+    holds): after an authority modifier the brackets of an IPvFuture literal without ':' are gone —
+    "http://[v1.x]:8080/" ↦ "http://v1.x:81/".  STILL OPEN: `op.NetArgs` / `NetlocCanon` side conditions of the older
+    theorems are unchanged; a host text with '[' inside (`¬ HostOK`) is F-C11-bracket / (E1), item 10.
  9. NEW.  Side conditions of the theorems that close 2, discharged by no theorem.  (a) `hs`: that `split_netloc` accepts
     the stored authority is a hypothesis on the concrete text (decidable; the rejected case is
     C11_headline_arbitrary_authority_split_fails); (b) "not (E1)" and the (E2) branch are conditions on the `split_netloc`
@@ -320,5 +389,29 @@ GAPS:
     record of five Python strings (C11_headline_reachE_contains_every_record), so `hr : ReachE e u` carries no
     information about the stored authority (C11_reachE_frame does not use it); URLs WITH a hand-made inconsistent cache
     are outside `ReachE` and remain uncovered (C03_inconsistent_cache_counterexample).
+10.  NEW.  What C11More.lean adds to the trusted reading, and KNOWN FINDING F-C11-bracket.  (a)
+    `C11_AuthorityModifiersOK`, `C11_HostSet`, `C11_SameAuthority`, `C11_KeepsAuthority`, `C11_QueryFrame`,
+    `C11_PathFrame` are `Prop`-valued abbreviations whose reading must be trusted; they are spelled out by `Iff.rfl` in
+    C11_headline_frames_def and C11_headline_authority_modifiers_ok_def.  (b)
+    C11_headline_dyn_authority_modifiers_need_authority is MODEL-LEVEL: `dynWithUser` … of YarlModel/Dyn.lean are a hand
+    transcription of the `isinstance` gates, tied to CPython by probe rows only (as C12Headline.lean GAPS 10 (a)).  (c)
+    `C11_KeepsAuthority e u v` gives "the authority accessors of `v` read as on `u`" only under `net e (pickleTwin u) =
+    net e u` (the cache of `u` agrees with its stored text; trivial for cache-less `u`).  For a constructor result with
+    an ASCII host text this holds IF AND ONLY IF `AgreeB` of the authority text of the input
+    (C11_headline_ctor_cache_agrees_iff, citing C09_eager_lazy_iff, C09More.lean; consequence:
+    C11_headline_ctor_modifiers_keep_authority_accessors); for non-ASCII hosts only the sufficient C09 guard under
+    `IdnaSaneAt` is available.  (d) KNOWN FINDING F-C11-bracket (KNOWN_FINDINGS, status known; it was NOT listed in this
+    block before): where (c) fails through malformed brackets, a query / path / fragment modifier "changes the host".
+    Evaluated in the model on the recorded witness (C11_headline_query_frame_fails_for_malformed_brackets):
+    `URL('http://[0:0:0:0:0:0[:0:0]/a').raw_host` is the pre-computed ':0:0:0:0:0[:0:', `.with_query('k=v').raw_host` is
+    ':0:0'; the authority text is in class (B) `MalformedBrackets` of C09More.lean.  So "every other raw component is
+    unchanged" is FALSE for the query operations / with_fragment / path modifiers on such a constructor result — same
+    root as F-C03-bracket / F-C09-bracket, not repaired in the library.  (The OTHER way to brackets — NFKC of U+FF3B /
+    U+FF3D — is closed by library fix 27f84d3, followed in the model: `checkNetloc` screens '[' ']' and such input is
+    rejected, C16_headline_nfkc_rejects_brackets, C16_headline_nfkc_rejects_fullwidth_brackets, C16HeadlineMore3.lean;
+    the ASCII witness above is unaffected by that fix.)  (e) `hH : HostOK h` of the general theorem excludes the empty
+    host and a host text containing '[' ']' '@'; for those only the relative frames (item 2 / item 8 (e)) are available,
+    with (E1) / (E2).  (f) The Python-level instance theorems are computed on the pure-Python backend without oracle
+    (`C11_ePy`) resp. a hostile `idna` table (`C11_eHostile`); they are examples, not general statements.
 -/
 end Yarl
